@@ -232,7 +232,11 @@ func (s scen) run(r *vrt.Run) {
 				r.Failf("value %d reduced %d times", v, c)
 			}
 		}
-		if o.maxActive > s.workers {
+		effWorkers := s.workers
+		if effWorkers < 1 {
+			effWorkers = 1 // WithWorkers raises anything below one worker to one
+		}
+		if o.maxActive > effWorkers {
 			r.Failf("%d mappers ran at the same time, workers=%d", o.maxActive, s.workers)
 		}
 		// cancel(err) records the error and only then drains the source: an item whose send
@@ -589,6 +593,14 @@ func scenarios() []scen {
 	}
 	add(scen{entry: "MapReduce", workers: 2, mb: []string{"w1", "w1"}, red: "nil1", bound: lo})
 	add(scen{entry: "MapReduce", workers: 1, mb: []string{}, red: "nil1", bound: lo})
+	// worker settings below one are raised to one worker: the call still maps everything and returns
+	for _, w := range []int{0, -1} {
+		add(scen{entry: "MapReduce", workers: w, mb: []string{"w1", "w1"}, bound: lo})
+		add(scen{entry: "MapReduce", workers: w, mb: []string{}, bound: lo})
+		add(scen{entry: "MapReduceVoid", workers: w, mb: []string{"w1"}, bound: lo})
+		add(scen{entry: "MapReduceChan", workers: w, mb: []string{"w1"}, bound: lo})
+		add(scen{entry: "ForEach", workers: w, mb: []string{"w0", "w0"}, bound: lo})
+	}
 	// E. other entry points
 	for _, e := range []string{"MapReduceVoid", "MapReduceChan"} {
 		add(scen{entry: e, workers: 2, mb: []string{"w1", "w1"}, bound: hi})
